@@ -379,7 +379,8 @@ def run(c):
               'time-budget expiry) sampled by tlc -simulate and materialised as real nested calls/methods in app and '
               'non-app files, snapshots compared with the spec state and an independent reading of the paused frames; '
               '(b) random object graphs: type name, value text, truncation and child names of every variable compared '
-              'with the by-construction expectation; non-trivial = stack depth >= 2 or several tracepoints / >= 3 nodes')
+              'with the by-construction expectation; (c) ten tracepoints configured through the service and registered in code: '
+              'the snapshot names the tracepoint as configured; non-trivial = stack depth >= 2 or several tracepoints / >= 3 nodes')
     c.assumptions = ['variable order on a frame, ids, hash text and durations are not compared',
                      'frames below the generated host functions (thread bootstrap) are compared with the reference '
                      'reading for file/function/line/class only']
